@@ -38,16 +38,20 @@ WithLength(ed, body) == LET padded == PadSection(ed, <<0, 0, 0>> \o body) IN U(L
 
 (* identification fields: a record with every field any edition needs *)
 Ident0 == [master |-> 0, centre |-> 0, subcentre |-> 0, update |-> 0, category |-> 0, intlsub |-> 0, localsub |-> 0,
-           mversion |-> 33, lversion |-> 0, year |-> 2020, month |-> 1, day |-> 2, hour |-> 3, minute |-> 4, second |-> 5]
+           mversion |-> 33, lversion |-> 0, year |-> 2020, yoc |-> 20, month |-> 1, day |-> 2, hour |-> 3, minute |-> 4, second |-> 5]
+(* every identification field at the top of its range (editions up to 3 carry the year of the century, 100 = the
+   year 2000, and one-octet centres); no local tables are asked for *)
+IdentMax == [master |-> 0, centre |-> 65535, subcentre |-> 65535, update |-> 255, category |-> 255, intlsub |-> 255, localsub |-> 255,
+             mversion |-> 33, lversion |-> 0, year |-> 2000, yoc |-> 100, month |-> 12, day |-> 31, hour |-> 23, minute |-> 59, second |-> 59]
 
 Sec1Body(ed, f, hasSec2) ==
     LET flag == IF hasSec2 THEN 128 ELSE 0 IN
     CASE ed = 4 -> <<f.master>> \o U(f.centre, 2) \o U(f.subcentre, 2) \o <<f.update, flag, f.category, f.intlsub, f.localsub,
                      f.mversion, f.lversion>> \o U(f.year, 2) \o <<f.month, f.day, f.hour, f.minute, f.second>>
-      [] ed = 3 -> <<f.master, f.subcentre, f.centre, f.update, flag, f.category, f.localsub, f.mversion, f.lversion,
-                     f.year % 100, f.month, f.day, f.hour, f.minute, f.second>>
+      [] ed = 3 -> <<f.master, f.subcentre % 256, f.centre % 256, f.update, flag, f.category, f.localsub, f.mversion, f.lversion,
+                     f.yoc, f.month, f.day, f.hour, f.minute, f.second>>
       [] ed = 2 -> <<f.master>> \o U(f.centre, 2) \o <<f.update, flag, f.category, f.localsub, f.mversion, f.lversion,
-                     f.year % 100, f.month, f.day, f.hour, f.minute, f.second>>
+                     f.yoc, f.month, f.day, f.hour, f.minute, f.second>>
 
 Sec1(ed, f, hasSec2) == WithLength(ed, Sec1Body(ed, f, hasSec2))
 Sec2(ed, local) == WithLength(ed, <<0>> \o local)
